@@ -221,11 +221,47 @@ def _fun(pairs, empty='[x \\in {} |-> <<>>]'):
     return ' @@ '.join('(%s :> %s)' % (k, v) for k, v in pairs)
 
 
-def tla_defs(name, prefix=''):
+def names_in_atoms(name, atoms, K):
+    """Macro / environment names that strings of <= K atoms can contain.  For the extracted default
+    database the signature table handed to TLC is restricted to these names (the full table makes TLC
+    slow); soundness: any *other* name the atoms can form must be unknown to the real database too,
+    which is asserted here."""
+    import re
+    import itertools
     d = describe(name)
-    ms = _fun([(tla_seq(k), _sig_tla(v)) for k, v in sorted(d['macros'].items())])
+    letters = [a for a in atoms if len(a) == 1 and a.isalpha()]
+    macs, envs = set(), set()
+    for a in atoms:
+        for m in re.finditer(r'\\([A-Za-z]+|.)', a, re.S):
+            if m.group(1) not in ('begin', 'end'):
+                macs.add(m.group(1))
+        for m in re.finditer(r'\\(?:begin|end)\{([^}]*)\}', a):
+            envs.add(m.group(1))
+    # names formable by appending letter atoms / wrapping letter atoms in \begin{..}
+    formable_m, formable_e = set(), set()
+    for k in range(1, K + 1):
+        for tup in itertools.product(letters, repeat=k):
+            w = ''.join(tup)
+            formable_m.add(w)
+            formable_e.add(w)
+            for base in macs:
+                if base.isalpha():
+                    formable_m.add(base + w)
+    bad = [x for x in formable_m - macs if x in d['macros']] + [x for x in formable_e - envs if x in d['envs']]
+    if bad:
+        raise ValueError('atoms can form names known to the database but not in the restricted table: %r' % bad[:5])
+    return macs | (formable_m & set(d['macros'])), envs | (formable_e & set(d['envs']))
+
+
+def tla_defs(name, prefix='', only=None):
+    d = describe(name)
+    macros, envs = d['macros'], d['envs']
+    if only is not None:
+        macros = {k: v for k, v in macros.items() if k in only[0]}
+        envs = {k: v for k, v in envs.items() if k in only[1]}
+    ms = _fun([(tla_seq(k), _sig_tla(v)) for k, v in sorted(macros.items())])
     es = _fun([(tla_seq(k), '[args |-> %s, body |-> "%s"]' % (_sig_tla(v['args']), v['body']))
-               for k, v in sorted(d['envs'].items())])
+               for k, v in sorted(envs.items())], empty='[x \\in {} |-> [args |-> <<>>, body |-> "nodes"]]')
     ss = _fun([(tla_seq(k), _sig_tla(v)) for k, v in sorted(d['specials'].items()) if v])
     return ('%sMacroSigDef == %s\n%sEnvSigDef == %s\n%sSpecSigDef == %s\n' % (prefix, ms, prefix, es, prefix, ss))
 
